@@ -4,7 +4,7 @@
 (* 32-bit signed, the crate's outputs are u64; the same operators serve     *)
 (* model checking (small values) and trace validation (values up to 2^64-1  *)
 (* carried as byte arrays in JSON).                                         *)
-EXTENDS Naturals, Sequences
+EXTENDS Integers, Sequences
 
 RECURSIVE UTrim(_)
 UTrim(s) == IF s = <<>> THEN s
